@@ -251,10 +251,12 @@ def join_aux(source_name, source_key, source_delete,  # noqa: C901
                 row.update(extra)
                 yield row
             if mode == 'full-outer':
+                # a row for an unmatched source key carries every field of the target (null where it has no value)
+                names = [f['name'] for f in resource.res.descriptor['schema']['fields']]
                 for key, value in db_keys_usage.items():
                     if value is False:
                         extra = create_extra_by_key(key)
-                        yield extra
+                        yield dict(dict.fromkeys(names), **extra)
 
     # Creates extra by key
     def create_extra_by_key(key):
